@@ -341,6 +341,10 @@ class SymReal:
             return 1 / (self ** (-n))
         if isinstance(o, float) and o == 0.5:
             return self.sqrt()
+        if isinstance(o, float) and o == -0.5:
+            return 1 / self.sqrt()
+        if isinstance(o, float) and float(2 * o).is_integer() and abs(o) <= 8:
+            return self.sqrt() ** int(2 * o)  # half-integer exponents: powers of the square root
         if isinstance(o, float) and 0 < o < 0.5 and abs(1 / o - round(1 / o)) < 1e-9:
             from .special import sym_root
 
